@@ -1,5 +1,5 @@
 """Registry: property id -> rule set, level and explanations."""
-from . import p_symbols, p_rs, p_charset, p_modes, p_macro
+from . import p_symbols, p_rs, p_charset, p_modes, p_macro, p_plan
 
 PROPS = {}
 
@@ -115,6 +115,36 @@ PROPS["C03"] = {
                    "(SYNZERO); block structure numbers and generator polynomials equal the standard.",
     "assumptions": ["default cargo features"],
     "technique": "provenance and shape rules over THIR (strided-view equality), typestate",
+}
+
+PROPS["C18"] = {
+    "level": "other",
+    "rules": [p_plan.sync, p_plan.plan_mono, p_modes.dom_mode, p_plan.prov_plan, p_modes.fld_enc],
+    "explanation": "Clause-level claim. The agreement between the planner's end-of-data prices and the encoders' handle_end behaviour "
+                   "(and hence `the latches in the output are exactly the plan's modes` and `never a larger symbol than predicted`) is "
+                   "arithmetic in two independently written state machines and is NOT decided (known: an EDIFACT run followed by exactly "
+                   "four final digits is priced 2 and encoded with 4 codewords). Decided: SYNC - plans that add_switches has already "
+                   "stepped are only ever added to the list of stepped plans, with the remaining-length of the current iteration, so "
+                   "planner positions and the encoder's chars_left count the same characters; PLAN-MONO - switch positions are rest_len "
+                   "values that never increase and the list ends with (0, mode), append-only; PLAN-MODES (= C13 DOM-MODE) - only enabled "
+                   "modes; PROV-PLAN - the planning API and the encoder obtain the plan from the same optimize() call shape and the "
+                   "encoder consumes it unmodified, front entry exactly at its position.",
+    "assumptions": ["default cargo features"],
+    "technique": "list-role typestate + provenance rules over THIR, MIR dominance",
+}
+
+PROPS["C19"] = {
+    "level": "other",
+    "rules": [p_plan.prune_every, p_plan.pigeonhole, p_plan.fanout],
+    "explanation": "Decided: the number of candidate-plan steps per input character is bounded by a constant: every main-loop "
+                   "iteration prunes (PRUNE-EVERY, THIR structure + MIR must-pass on the loop's back edges); pruning leaves at most "
+                   "N = 36 plans by a pigeonhole argument over the occupancy table indexed by start_mode.index()*6+current.index() "
+                   "with index() a bijection onto 0..6 (PIGEONHOLE); each surviving plan is stepped once and spawns at most 6 "
+                   "once-stepped plans through the loop-free add_switches (FANOUT): <= 36*(1+6) steps per character. NOT decided: that "
+                   "the outer loop runs exactly n+1 times (it ends when a step reports `end`), and the amortised cost of the look-ahead "
+                   "scans inside AsciiPlan::step / unbeatable_strike.",
+    "assumptions": ["default cargo features"],
+    "technique": "loop-structure and must-pass rules over THIR/MIR, pigeonhole table argument",
 }
 
 NOT_APPLICABLE = {
